@@ -217,6 +217,7 @@ func hSet(st *State, a []string) string {
 	if err != nil {
 		return "err"
 	}
+	el.HashTreeRoot(tree.Hash) // the inserted value is hashed beforehand (C07 premise)
 	return errStr(setElem(hd, i, el))
 }
 
@@ -236,6 +237,7 @@ func hApp(st *State, a []string) string {
 	if err != nil {
 		return "err"
 	}
+	el.HashTreeRoot(tree.Hash)
 	switch x := hd.vw.(type) {
 	case *view.BasicListView:
 		return errStr(x.Append(el.(view.BasicView)))
@@ -280,6 +282,7 @@ func hChg(st *State, a []string) string {
 	if err != nil {
 		return "err"
 	}
+	el.HashTreeRoot(tree.Hash)
 	return errStr(u.Change(uint8(sel), el))
 }
 
